@@ -180,10 +180,17 @@ fn lift(statement: FsStatement, state: &mut ShrinkingState) -> Rc<axcut::syntax:
         });
     }
 
-    let label = fresh_identifier(
-        state.max_id,
-        &("lift_".to_string() + state.current_label + "_"),
-    );
+    let base_name = "lift_".to_string() + state.current_label + "_";
+    let mut label = fresh_identifier(state.max_id, &base_name);
+    // labels are printed as `<name>_<id>`, so the fresh label must not be printed like the name of a
+    // top-level function of the program
+    while state
+        .used_labels
+        .iter()
+        .any(|used| used.id == 0 && used.name == format!("{}_{}", label.name, label.id))
+    {
+        label = fresh_identifier(state.max_id, &base_name);
+    }
     let context = shrink_context(context.into(), state.codata);
     // we substitute the fresh variables for the free ones in the body
     let body = statement.subst_sim(&subst).shrink(state);
